@@ -190,7 +190,13 @@ func realtime(a *hk.Args) error {
 			observers = 1 + rng.Intn(8)
 		}
 		dies := rng.Intn(3) != 0
-		evs, err := oneRealtimeRound(id, a.Dir, hold, load, observers, dies, rng.Int63())
+		// every third round: one write of the live holder's heartbeat fails (a transient I/O error: no file descriptor left, a
+		// hiccup of the shared filesystem); the holder lives on and so must its sign of life
+		hiccup := id%3 == 2
+		if hiccup && hold < 14 {
+			hold = 14 + rng.Intn(10)
+		}
+		evs, err := oneRealtimeRound(id, a.Dir, hold, load, observers, dies, hiccup, rng.Int63())
 		if err != nil {
 			return err
 		}
@@ -202,7 +208,7 @@ func realtime(a *hk.Args) error {
 	return nil
 }
 
-func oneRealtimeRound(id int, scratch string, holdPeriods, load, observers int, dies bool, seed int64) ([]rtEvent, error) {
+func oneRealtimeRound(id int, scratch string, holdPeriods, load, observers int, dies, hiccup bool, seed int64) ([]rtEvent, error) {
 	dir, err := os.MkdirTemp(scratch, "c17-")
 	if err != nil {
 		return nil, err
@@ -302,6 +308,9 @@ func oneRealtimeRound(id int, scratch string, holdPeriods, load, observers int, 
 		return nil, fmt.Errorf("holder could not acquire a free lock: %w", err)
 	}
 	emit(rtEvent{Op: "Acquired", T: now()})
+	if hiccup {
+		gate.FailNext(fsgate.FailWhen{Key: "holder.hb", Op: "OpenFile", Suffix: "rt.lock", NotBefore: gate.Count("holder.hb") + 6})
+	}
 	var holderGone atomic.Bool
 	rng := rand.New(rand.NewSource(seed))
 	var owg sync.WaitGroup
